@@ -241,11 +241,13 @@ def gen_scenario(prng, tier, index, focus):
     sc["repeat"] = 1
     if variant == "faults":
         sc["repeat"] = 2
-        kind = prng.choice(("callback_raise", "abort_at_decision", "both"))
+        kind = prng.choice(("callback_raise", "abort_at_decision", "both", "abort_at_line", "abort_at_line"))
         if kind in ("callback_raise", "both"):
             sc["faults"].append({"kind": "callback_raise", "at": prng.randrange(0, 6)})
         if kind in ("abort_at_decision", "both"):
             sc["faults"].append({"kind": "abort_at_decision", "at": prng.randrange(0, 12)})
+        if kind == "abort_at_line":
+            sc["faults"].append({"kind": "abort_at_line", "at": prng.choice((prng.randrange(0, 40), prng.randrange(0, 400)))})
     elif prng.random() < 0.25:
         sc["repeat"] = 2  # plain reuse of one generator object
     return sc
@@ -442,18 +444,21 @@ def run_generation(sc, ctx, on_result):
     for rnd in range(sc.get("repeat", 1)):
         rec.reset()
         abort_at = None
+        abort_line = None
         if rnd == 0:
             for f in faults:
                 if f["kind"] == "callback_raise":
                     rec.fail_at = f["at"]
                 elif f["kind"] == "abort_at_decision":
                     abort_at = f["at"]
+                elif f["kind"] == "abort_at_line":
+                    abort_line = f["at"]
         else:
             rec.fail_at = None
         jds = make_jds(sc)
         before = [tuple(r) for r in jds]
         types_before = [type(r) for r in jds]
-        st, val = ctx.call(src, algo.random_clustered_graph, jds, abort_at=abort_at,
+        st, val = ctx.call(src, algo.random_clustered_graph, jds, abort_at=abort_at, abort_at_line=abort_line,
                            budget=200000 if not sc.get("scale") else None, label=f"generate[{sc['algo']}]")
         if st == "fault":
             ctx.fault("callback_raise")
